@@ -3081,3 +3081,11 @@ M("C07", "end-of-ends-inverted", CLC,
 M("C01", "dummy-start-not-linked", "pv_to_puml/data_ingestion.py",
   "        dummy_start_event.add_post_event(start_event)\n", "",
   "R1.28", "the dummy start has no successors")
+
+M("C07", "break-filter-not-run", DL,
+  "        filter_and_replace_breaks_connected_to_end_events(graph, loop)\n", "",
+  "R7.13", "break events that touch the exit are never replaced by dummy breaks")
+M("C07", "break-filter-after-carving", DL,
+  "        filter_and_replace_breaks_connected_to_end_events(graph, loop)\n        sub_graph, start_event, end_event = create_sub_graph_of_loop(\n            loop, graph\n        )\n",
+  "        sub_graph, start_event, end_event = create_sub_graph_of_loop(\n            loop, graph\n        )\n        filter_and_replace_breaks_connected_to_end_events(graph, loop)\n",
+  "R7.13", "the body is carved before the dummy breaks exist")
